@@ -21,7 +21,7 @@ RULE = (
     "adversarial texts (NUL, lone surrogates in code / comment / string / library module, BOM, CRLF, tabs, 3000 nested operators, "
     "400-digit integer, 1e999, break/continue/return/yield at top level, Lua-looking text, directives naming dunder attributes, "
     "module maps with broken library modules, unsupported constructs); every option field set to each of {True, False, None, 0, 1, "
-    "'yes'}; 8 recursive programs x all 32 behaviour option vectors (each must be an error verdict); a scaling set (17 statement kinds repeated 1..24 times, 4 constructs nested to depth 12: compile time must stay inside the bound); and the constexpr fault set {raises, prints, returns a non-JSON value, returns NaN, loops forever, recursion, "
+    "'yes'}; 8 recursive programs x all 32 behaviour option vectors (each must be an error verdict); a scaling set (17 statement kinds repeated 1..24 times, 4 constructs nested to depth 12: compile time must stay inside the bound); and the constexpr fault set {raises, prints, returns a non-JSON value, returns NaN, loops forever (plain, swallowing KeyboardInterrupt / every exception, in a finally block, ignoring SIGINT / SIGTERM), recursion, "
     "sys.exit, huge output, open/eval/exec} x {main code, function body, library module}.  Oracle per call: no exception escapes; "
     "the result is a dict with exactly one of 'code' (a str, with integer num_lines/num_bytes/num_registers consistent with it) or "
     "'error' (a dict with a str description; if a position is given then 1 <= line <= number of lines of the submitted text + 1 and "
@@ -216,6 +216,12 @@ CX_BODIES = {
     "inf": "    return 1e308 * 10\n",
     "loops": "    while True:\n        pass\n",
     "recursion": "    return cx(a + 1)\n",
+    "loops-swallow-interrupt": "    while True:\n        try:\n            while True:\n                pass\n        except BaseException:\n            pass\n",
+    "loops-bare-except": "    while True:\n        try:\n            a = a + 1\n            while a:\n                a = a + 1\n        except:\n            a = 1\n",
+    "loops-finally": "    try:\n        while True:\n            pass\n    finally:\n        while True:\n            pass\n",
+    "ignores-sigint": "    import signal\n    signal.signal(signal.SIGINT, signal.SIG_IGN)\n    while True:\n        pass\n",
+    "ignores-sigterm": "    import signal\n    signal.signal(signal.SIGTERM, signal.SIG_IGN)\n    signal.signal(signal.SIGINT, signal.SIG_IGN)\n    while True:\n        pass\n",
+    "forks-child": "    import os\n    if os.fork() == 0:\n        import time\n        time.sleep(30)\n        os._exit(0)\n    return a\n",
     "sysexit": "    import sys\n    sys.exit(3)\n",
     "hugeout": "    return 'x' * 3000000\n",
     "sleep": "    import time\n    time.sleep(5)\n    return a\n",
@@ -367,7 +373,8 @@ def run(tier, propose=False):
             cl.update((o.get("stats") or {}).get("classes", []))
         return {"verdict_classes_seen": sorted(cl), "seeds": sum(1 for c in cs if c["family"] == "SEED")}
 
-    return common.enum_check(PROP, tier, cases, run_case, LEVEL, RULE, ASSUME, propose_only=propose, extra_cov=extra, det_n=0, nontrivial=lambda o: (o.get("stats") or {}).get("nontrivial", 0), exhaustive=True)
+    return common.enum_check(PROP, tier, cases, run_case, LEVEL, RULE, ASSUME, propose_only=propose, extra_cov=extra, det_n=0, nontrivial=lambda o: (o.get("stats") or {}).get("nontrivial", 0), exhaustive=True,
+                             slow_phase=(lambda c: c["family"] == "CONSTEXPR-FAULT", 4))
 
 
 def replay(path):
